@@ -247,7 +247,7 @@ def _parallel_map(fn, cases, nproc=None, timeout=120):
     if n == 0:
         return []
     nproc = max(1, min(nproc or (os.cpu_count() or 4), n))
-    tmpd = tempfile.mkdtemp(prefix="cvpool-", dir="/dev/shm" if os.path.isdir("/dev/shm") else None)
+    tmpd = tempfile.mkdtemp(prefix="cvpool-%d-" % os.getpid(), dir="/dev/shm" if os.path.isdir("/dev/shm") else None)
     pids = []
     sys.stdout.flush()
     sys.stderr.flush()
